@@ -66,7 +66,7 @@ def erow_cxx(r, rng, internal_table=False):
         body += " [" + gx_cxx(r["g"], 0, rng) + "]"
     if r["acts"]:
         al = ", ".join("a%d" % a for a in r["acts"])
-        body += " / " + (("(" + al + ")") if len(r["acts"]) > 1 or rng.random() < 0.3 else al)
+        body += " / " + (("(" + al + ")") if len(r["acts"]) > 1 or (rng is not None and rng.random() < 0.3) else al)
     if r["form"] == "first":
         return "s%d == %s" % (r["t"], body)
     if r["form"] == "last":
